@@ -119,6 +119,28 @@ class TTuple(Ty):
 # lists
 
 
+def _infer_ty(ip, v):
+  if isinstance(v, tuple):
+    return TTuple(*[_infer_ty(ip, x) for x in v])
+  if isinstance(v, bool):
+    return TBool
+  if isinstance(v, int):
+    return TInt
+  if isinstance(v, str):
+    return TAtom
+  if is_z3(v):
+    if z3.is_int(v):
+      return TInt
+    if z3.is_real(v):
+      return TReal
+    if z3.is_bool(v):
+      return TBool
+    if v.sort() == Atom:
+      return TAtom
+    return TSort(v.sort())
+  raise EngineError("cannot infer the element type of %r" % (v,))
+
+
 class PyList(Model):
   """A list whose *length* is concrete on this path (elements may be symbolic)."""
   model_name = 'list'
@@ -264,6 +286,15 @@ class PySetLit(Model):
     return list(self.items)
 
 
+def _is_ground_seq(t):
+  """a concatenation of units / empty (concrete length): needs no hints"""
+  if z3.is_app_of(t, z3.Z3_OP_SEQ_EMPTY) or z3.is_app_of(t, z3.Z3_OP_SEQ_UNIT):
+    return True
+  if z3.is_app_of(t, z3.Z3_OP_SEQ_CONCAT):
+    return all(_is_ground_seq(c) for c in t.children())
+  return False
+
+
 class SymSeq(Model):
   """list / deque / generator output of symbolic length: a z3 sequence."""
   model_name = 'seq'
@@ -313,7 +344,17 @@ class SymSeq(Model):
 
   # python API
   def py_append(self, ip, v):
-    self.set_term(ip, z3.Concat(self.term, z3.Unit(self.ty.enc(ip, v))))
+    old = self.term
+    e = self.ty.enc(ip, v)
+    new = z3.Concat(old, z3.Unit(e))
+    if not z3.is_app_of(old, z3.Z3_OP_SEQ_EMPTY) and not _is_ground_seq(old):
+      # pointwise consequences of the definition, stated explicitly for the quantifier engine
+      i = z3.Int('i?')
+      n = z3.Length(old)
+      ip.ctx.assume(z3.Length(new) == n + 1)
+      ip.ctx.assume(new[n] == e)
+      ip.ctx.assume(z3.ForAll([i], z3.Implies(z3.And(0 <= i, i < n), new[i] == old[i])))
+    self.set_term(ip, new)
 
   def py_appendleft(self, ip, v):
     self.set_term(ip, z3.Concat(z3.Unit(self.ty.enc(ip, v)), self.term))
@@ -382,6 +423,30 @@ class SymSeq(Model):
 
   def to_symseq(self, ip, ty):
     return self
+
+  def py_listcomp(self, ip, node, fr):
+    """[elt for target in <this sequence>] without conditions, for a pure element expression:
+    a sequence of the same length whose i-th element is elt evaluated on the i-th element."""
+    from .interp import Frame
+    g = node.generators[0]
+    if g.ifs:
+      raise EngineError("comprehension with a condition over a symbolic sequence needs a model")
+    i = z3.Int('i?')
+    sub = Frame(fr.func, fr.env, parent=fr)
+    ip.assign(g.target, self.ty.dec(self.term[i]), sub)
+    mark = len(ip.ctx.pc)
+    v = ip.eval(node.elt, sub)
+    if len(ip.ctx.pc) != mark:
+      raise EngineError("comprehension element expression is not pure (it branched or assumed)")
+    ety = ip.ext.get(('listcomp_type', fr.func.qualname if fr.func else None))
+    if ety is None:
+      ety = _infer_ty(ip, v)
+    out = SymSeq.fresh(ip, ety, 'comp')
+    n = self.length()
+    ip.ctx.assume(out.length() == n)
+    ip.ctx.assume(z3.ForAll([i], z3.Implies(z3.And(0 <= i, i < n), out.term[i] == ety.enc(ip, v))))
+    out.map_of = (self, i, v)
+    return out
 
 
 # -------------------------------------------------------------------------------------------------
@@ -677,10 +742,14 @@ class SymSet(Model):
               z3.ForAll([k], z3.Implies(z3.Select(mem, k),
                                         z3.And(0 <= idx(k), idx(k) < n, s.term[idx(k)] == k)))]:
       ip.ctx.assume(f)
+    s.idx_fn = idx
     return s
 
   def as_symseq(self, ip):
     return self.elems_seq(ip)
+
+  def py_listcomp(self, ip, node, fr):
+    return self.elems_seq(ip).py_listcomp(ip, node, fr)
 
 
 # -------------------------------------------------------------------------------------------------
